@@ -491,7 +491,7 @@ MUTANTS += [
          old="    p0, p = P[0], P[1:]\n    return np.vstack((-p, p0 * eye3 + ax2skew(p))) / 2\n",
          new="    p0, p = P[0], P[1:]\n    matrix = np.vstack((-p, p0 * eye3 + ax2skew(p))) / 2\n    if not normalize:\n        matrix /= P @ P\n    return matrix\n", expect="C04.R13"),
     dict(id="c04-r13-site", what="RigidBody.q_dot normalises the quaternion before the kinematic map (degree 0)", file=RB,
-         old="        q_dot[3:] = T_SO3_inv_quat(q[3:], normalize=False) @ u[3:]", new="        q_dot[3:] = T_SO3_inv_quat(q[3:] / norm(q[3:]), normalize=False) @ u[3:]", expect="C04.R13"),
+         old="        q_dot[3:] = T_SO3_inv_quat(q[3:], normalize=False) @ u[3:]", new="        q_dot[3:] = T_SO3_inv_quat(q[3:] / norm(q[3:]), normalize=False) @ u[3:]", expect="C04.R4"),
 ]
 NEUTRAL += [
     dict(id="c04-n-r13", canary=True, what="T_SO3_inv_quat builds its matrix in a local first", file=ROT4,
